@@ -34,14 +34,15 @@ def make_case(rng, n_items, n_workers, combo, schedule, gen=False, cms_kind=None
     keys = key_family(rng, 6, 0, 8)
     items = P.gen_items(rng, n_items, keys)
     return {"type": "inproc", "items": items, "n_workers": n_workers, "combo": list(combo), "args": P.gen_args(rng, combo, cms_kind),
-            "schedule": {str(k): v for k, v in schedule.items()}, "as_generator": gen}
+            "schedule": {str(k): v for k, v in schedule.items()}, "as_generator": gen, "item_kind": pick(rng, P.ITEM_KINDS)}
 
 
 def run_inproc_case(case, ctx, mon):
     combo = tuple(case["combo"])
     sched = {int(k): v for k, v in case["schedule"].items()}
     det = dict(n_workers=case["n_workers"], combo=list(combo), schedule=case["schedule"], generator=case["as_generator"])
-    outcome, res, fctx = P.run_inproc(case["items"], sched, case["n_workers"], case["args"], as_generator=case["as_generator"])
+    outcome, res, fctx = P.run_inproc(case["items"], sched, case["n_workers"], case["args"], as_generator=case["as_generator"],
+                                      kind=case.get("item_kind", "dict"))
     if outcome == "hang":
         mon.check(False, "parallel_add-terminates", why=str(res), **det)
     if outcome == "raised":
@@ -56,6 +57,7 @@ def run_inproc_case(case, ctx, mon):
     mon.count("inproc_runs")
     mon.seen("combo", "+".join(combo))
     mon.seen("n_workers", case["n_workers"])
+    mon.seen("item_kind", case.get("item_kind", "dict") + ("/generator" if case["as_generator"] else "/list"))
     if case["n_workers"] % 2 == 1 and case["n_workers"] > 1:
         mon.count("runs_with_odd_worker_count")
     if case["as_generator"]:
@@ -118,7 +120,7 @@ def gen_cases(ctx):
             keys = key_family(rng, 8, 0, 8)
             items = P.gen_items(rng, int(rng.integers(nw + 1, 2 * nw + 4)), keys, sleep=True)
             yield {"type": "spawned", "items": items, "n_workers": nw, "combo": list(combo), "args": P.gen_args(rng, combo, "linear"),
-                   "as_generator": gen, "timeout": 900}
+                   "as_generator": gen, "timeout": 300 if q else 900, "item_kind": ["bytes", "int", "dict", "str", "tuple"][j % 5]}
     # --- exhaustive schedules
     bounds = [(3, 2), (4, 3)] if q else [(4, 3), (5, 3), (6, 4)]
     for (n_items, n_workers) in bounds:
@@ -131,7 +133,8 @@ def gen_cases(ctx):
         args = P.gen_args(base_rng, COMBO_ALL, "linear")
         for k, sched in enumerate(scheds):
             yield {"type": "inproc", "items": items, "n_workers": n_workers, "combo": list(COMBO_ALL), "args": args,
-                   "schedule": {str(w): v for w, v in sched.items()}, "as_generator": bool(k % 7 == 3), "exhaustive": [n_items, n_workers]}
+                   "schedule": {str(w): v for w, v in sched.items()}, "as_generator": bool(k % 7 == 3), "exhaustive": [n_items, n_workers],
+                   "item_kind": P.ITEM_KINDS[k % len(P.ITEM_KINDS)]}
     # --- all seven combinations, worker counts 1..9, random schedules, list and generator
     n_rand = 260 if q else 10**9
     for j in range(n_rand):
@@ -178,6 +181,7 @@ def floors(mon, ctx):
     mon.floor("worker counts", len(mon.classes["n_workers"]), 9)
     mon.floor("runs with an odd worker count", mon.counters["runs_with_odd_worker_count"], 10)
     mon.floor("runs with generator items", mon.counters["runs_with_generator_items"], 10)
+    mon.floor("item kinds x (list, generator)", len(mon.classes["item_kind"]), 8)
     mon.floor("real spawned runs completed", mon.counters["spawned_runs_completed"], 1 if ctx.quick else 4)
     if ctx.thorough:
         mon.floor("distinct item->worker assignments seen in spawned runs", len(mon.classes["spawned_assignments"]), 2)
